@@ -640,9 +640,71 @@ class Normalizer:
             return ca
         if cc == KFALSE:
             return cb
+        tree = ("ite", cc, ca, cb)
+        canon_tree = self._decision_tree(tree)
+        if canon_tree is not None:
+            return canon_tree
         if _key(nc) < _key(cc):
             return ("ite", nc, cb, ca)
-        return ("ite", cc, ca, cb)
+        return tree
+
+    @staticmethod
+    def _cond_atoms(c):
+        if c in (KTRUE, KFALSE):
+            return ()
+        if isinstance(c, tuple) and c and c[0] == "B":
+            return tuple(c[1])
+        return (c,)
+
+    @staticmethod
+    def _cond_value(c, asg):
+        if c == KTRUE:
+            return True
+        if c == KFALSE:
+            return False
+        if isinstance(c, tuple) and c and c[0] == "B":
+            j = 0
+            for bi, a in enumerate(c[1]):
+                if asg[a]:
+                    j |= 1 << bi
+            return bool((c[2] >> j) & 1)
+        return asg[c]
+
+    def _decision_tree(self, tree):
+        """Canonical form of nested selections: the function from the truth values of the atoms of all tests to the selected leaf,
+        written as a Shannon expansion over the atoms in canonical order (equal branches collapsed). `where` chains in any order,
+        `select` with mutually exclusive cases, and nested conditional expressions over the same tests coincide."""
+        atoms = []
+
+        def collect(t):
+            if isinstance(t, tuple) and len(t) == 4 and t[0] == "ite":
+                for a in self._cond_atoms(t[1]):
+                    if a not in atoms:
+                        atoms.append(a)
+                collect(t[2])
+                collect(t[3])
+
+        collect(tree)
+        if not atoms or len(atoms) > 6:
+            return None
+        atoms.sort(key=_key)
+
+        def leaf(t, asg):
+            while isinstance(t, tuple) and len(t) == 4 and t[0] == "ite":
+                t = t[2] if self._cond_value(t[1], asg) else t[3]
+            return t
+
+        def build(i, asg):
+            if i == len(atoms):
+                return leaf(tree, asg)
+            a = atoms[i]
+            tt = build(i + 1, dict(asg, **{}) | {a: True})
+            ff = build(i + 1, dict(asg) | {a: False})
+            if tt == ff:
+                return tt
+            return ("ite", a, tt, ff)
+
+        return build(0, {})
 
     # -- calls ----------------------------------------------------------------
     def call(self, n) -> dict:
